@@ -15,8 +15,9 @@ HANG_SECONDS = 60.0
 LINE_BUDGET = 1000000000
 RULE = ("Hypothesis-generated LayoutSwapper configurations (3-D/4-D, extents 2-8, 2-D process grids incl. "
         "p0==p1, p0!=p1 and extents of 1, a 2-D layout group plus 1-3 further groups on p0, p1, [p0,p1] or 1, "
-        "any start layout) with histories (1-8 steps, previous destination = next source, spare buffer or "
-        "not) run on a simulated MPI world under a generated schedule; after every step every rank's block is "
+        "any start layout, one dimension shorter than its process count in 1 case of 6) with histories (1-8 "
+        "steps; source = previous destination, or the previous source again when a spare buffer left it intact, or a "
+        "fresh array held in any layout; spare buffer or not) run on a simulated MPI world under a generated schedule; after every step every rank's block is "
         "compared bit-for-bit with the slice of the global array given by the destination layout's own ranges "
         "(hence replicas are identical), and ownership counts must equal the replication factor. "
         "Constructor refusals must be unanimous.  Non-trivial = history contains a gather and a scatter step "
@@ -36,12 +37,35 @@ def cases(draw, tier):
     cfg = draw(mg.swapper_config(tier, allow_empty=True))
     names = [n for n, _ in mg.all_layouts(cfg)]
     nl = len(names)
-    steps = draw(st.lists(st.tuples(st.integers(0, nl - 1), st.booleans()), min_size=1, max_size=8))
-    steps = [[names[i], b] for i, b in steps]
+    # every step: destination, spare buffer or not, and where the source comes from: "chain" (the previous
+    # destination), "fork" (the previous source again, if a spare buffer left it intact) or a fresh array held in
+    # any layout (a second field moved with the same swapper)
+    steps = draw(st.lists(st.tuples(st.integers(0, nl - 1), st.booleans(),
+                                    st.sampled_from(["chain", "chain", "chain", "fork", "fresh"]),
+                                    st.integers(0, nl - 1)), min_size=1, max_size=8))
+    steps = [[names[i], b] if how == "chain" else [names[i], b, how, names[j]] for i, b, how, j in steps]
     if draw(st.booleans()):
         steps.append([cfg["start"], draw(st.booleans())])
     return {"cfg": cfg, "dtype": draw(st.sampled_from(["float64", "complex128", "complex128", "int64"])),
             "steps": steps, "schedule": draw(gen.schedules(16))}
+
+
+def moves(case):
+    """(source layout, destination layout, spare buffer?, kind of source) of every step; a "fork" whose previous step
+    had no spare buffer (source not intact) falls back to the chain."""
+    out = []
+    cur = case["cfg"]["start"]
+    prev = None
+    for st_ in case["steps"]:
+        dn, usebuf = st_[0], st_[1]
+        how = st_[2] if len(st_) > 2 else "chain"
+        if how == "fork" and prev is None:
+            how = "chain"
+        sn = prev if how == "fork" else (st_[3] if how == "fresh" else cur)
+        out.append((sn, dn, usebuf, how))
+        prev = sn if usebuf else None
+        cur = dn
+    return out
 
 
 def _rank_fn(ctx, case):
@@ -60,31 +84,38 @@ def _rank_fn(ctx, case):
         info[n] = (tuple(int(x) for x in l.starts), tuple(int(x) for x in l.ends))
         if l.size > bs:
             raise Violation("C03:buffer-too-small", "bufferSize %d < size %d of layout %s" % (bs, l.size, n))
-    cur = cfg["start"]
-    src = np.full(bs, sent, dtype=dtype)
-    dst = np.full(bs, sent, dtype=dtype)
-    l = sw.getLayout(cur)
-    src[:l.size] = ga.block(G, l.dims_order, l.starts, l.ends).ravel()
-    for k, (dn, usebuf) in enumerate(case["steps"]):
-        ls = sw.getLayout(cur)
+    def held_in(name):
+        a = np.full(bs, sent, dtype=dtype)
+        l = sw.getLayout(name)
+        a[:l.size] = ga.block(G, l.dims_order, l.starts, l.ends).ravel()
+        return a
+    arrays = {"cur": (held_in(cfg["start"]), cfg["start"]), "prev": None}
+    for k, (sn, dn, usebuf, how) in enumerate(moves(case)):
+        if how == "fork":
+            src = arrays["prev"][0]
+        elif how == "fresh":
+            src = held_in(sn)
+        else:
+            src = arrays["cur"][0]
+        dst = np.full(bs, sent, dtype=dtype)
+        ls = sw.getLayout(sn)
         ld = sw.getLayout(dn)
         before = src[:ls.size].copy()
         buf = np.full(bs, sent, dtype=dtype) if usebuf else None
-        sw.transpose(src, dst, cur, dn, buf)
+        sw.transpose(src, dst, sn, dn, buf)
         want = ga.block(G, ld.dims_order, ld.starts, ld.ends)
         got = dst[:ld.size].reshape(ld.shape)
         if not ga.bits_equal(got, want):
             bad = np.argwhere(got != want)
             raise Violation("C03:wrong-data",
-                            "step %d %s->%s buf=%s rank %d: %d of %d elements differ (first at %s)"
-                            % (k, cur, dn, usebuf, ctx.rank, len(bad), want.size,
+                            "step %d %s->%s (%s source) buf=%s rank %d: %d of %d elements differ (first at %s)"
+                            % (k, sn, dn, how, usebuf, ctx.rank, len(bad), want.size,
                                bad[0].tolist() if len(bad) else None))
         if usebuf and not ga.bits_equal(src[:ls.size], before):
             raise Violation("C03:source-modified", "step %d %s->%s with spare buffer changed the source block on rank %d"
-                            % (k, cur, dn, ctx.rank))
-        src, dst = dst, src
-        dst[:] = sent
-        cur = dn
+                            % (k, sn, dn, ctx.rank))
+        arrays["prev"] = (src, sn) if usebuf else None
+        arrays["cur"] = (dst, dn)
     return ("ok", info)
 
 
@@ -109,18 +140,18 @@ def predicate(case):
                             % (n, m, want))
     # labels
     nd = [len([p for p in mg.group_nprocs(cfg, k) if p > 1]) for k in range(len(cfg["groups"]))]
-    cur = cfg["start"]
     gather = scatter = False
-    for dn, _ in case["steps"]:
-        a, b = nd[mg.group_of(cfg, cur)], nd[mg.group_of(cfg, dn)]
+    kinds_seen = set()
+    for sn, dn, _, how in moves(case):
+        a, b = nd[mg.group_of(cfg, sn)], nd[mg.group_of(cfg, dn)]
         if b < a:
             gather = True
         if b > a:
             scatter = True
-        cur = dn
+        kinds_seen.add(how)
     g0 = next(g for g in cfg["groups"] if not isinstance(g["nprocs"], int) and len(g["nprocs"]) == 2)
     p0, p1 = g0["nprocs"]
-    labels = ["P=%d" % P]
+    labels = ["P=%d" % P] + sorted("source:" + k for k in kinds_seen)
     if gather:
         labels.append("gather")
     if scatter:
